@@ -759,3 +759,130 @@ func pathDist(ps []orb.Point, p orb.Point) float64 {
 	}
 	return d
 }
+
+// ---------------------------------------------------------------- own GeoJSON bytes (fast path)
+
+// jsonNum formats a float the way encoding/json does ('f', or 'e' below 1e-6 / from 1e21 with the
+// exponent's leading zero removed).
+func jsonNum(b []byte, f float64) []byte {
+	abs := math.Abs(f)
+	format := byte('f')
+	if abs != 0 && (abs < 1e-6 || abs >= 1e21) {
+		format = 'e'
+	}
+	b = strconv.AppendFloat(b, f, format, -1, 64)
+	if format == 'e' {
+		if n := len(b); n >= 4 && b[n-4] == 'e' && (b[n-3] == '-' || b[n-3] == '+') && b[n-2] == '0' {
+			b[n-2] = b[n-1]
+			b = b[:n-1]
+		}
+	}
+	return b
+}
+
+func jsonPts(b []byte, ps []orb.Point) []byte {
+	if ps == nil {
+		return append(b, "null"...)
+	}
+	b = append(b, '[')
+	for i, p := range ps {
+		if i > 0 {
+			b = append(b, ',')
+		}
+		b = append(b, '[')
+		b = jsonNum(b, p[0])
+		b = append(b, ',')
+		b = jsonNum(b, p[1])
+		b = append(b, ']')
+	}
+	return append(b, ']')
+}
+
+func jsonPoly(b []byte, p orb.Polygon) []byte {
+	if p == nil {
+		return append(b, "null"...)
+	}
+	b = append(b, '[')
+	for i, r := range p {
+		if i > 0 {
+			b = append(b, ',')
+		}
+		b = jsonPts(b, r)
+	}
+	return append(b, ']')
+}
+
+// modelGeoJSONBytes is the compact GeoJSON text of g with the members in the order type, coordinates /
+// geometries: byte-equal output needs no decoding; any other output is decoded and compared as a document.
+func modelGeoJSONBytes(b []byte, g orb.Geometry) []byte {
+	open := func(t string) { b = append(b, `{"type":"`+t+`","coordinates":`...) }
+	switch v := g.(type) {
+	case nil:
+		return append(b, "null"...)
+	case orb.Point:
+		open("Point")
+		b = append(b, '[')
+		b = jsonNum(b, v[0])
+		b = append(b, ',')
+		b = jsonNum(b, v[1])
+		b = append(b, ']')
+	case orb.MultiPoint:
+		open("MultiPoint")
+		b = jsonPts(b, v)
+	case orb.LineString:
+		open("LineString")
+		b = jsonPts(b, v)
+	case orb.Ring:
+		open("Polygon")
+		b = jsonPoly(b, orb.Polygon{v})
+	case orb.Bound:
+		open("Polygon")
+		b = jsonPoly(b, gen.BoundPolygon(v))
+	case orb.MultiLineString:
+		open("MultiLineString")
+		if v == nil {
+			b = append(b, "null"...)
+		} else {
+			b = append(b, '[')
+			for i, l := range v {
+				if i > 0 {
+					b = append(b, ',')
+				}
+				b = jsonPts(b, l)
+			}
+			b = append(b, ']')
+		}
+	case orb.Polygon:
+		open("Polygon")
+		b = jsonPoly(b, v)
+	case orb.MultiPolygon:
+		open("MultiPolygon")
+		if v == nil {
+			b = append(b, "null"...)
+		} else {
+			b = append(b, '[')
+			for i, p := range v {
+				if i > 0 {
+					b = append(b, ',')
+				}
+				b = jsonPoly(b, p)
+			}
+			b = append(b, ']')
+		}
+	case orb.Collection:
+		if len(v) == 0 {
+			return append(b, "null"...)
+		}
+		b = append(b, `{"type":"GeometryCollection","geometries":[`...)
+		for i, m := range v {
+			if i > 0 {
+				b = append(b, ',')
+			}
+			b = modelGeoJSONBytes(b, m)
+		}
+		return append(b, "]}"...)
+	default:
+		panic(fmt.Sprintf("modelGeoJSONBytes: %T", g))
+	}
+	return append(b, '}')
+}
